@@ -17,6 +17,7 @@ SCALES = [1e-7, 1e-6, 1e-5, 1e-3, 1e3, 1e5, 1e6, 1e7]
 DIAG_STYLES = ['ar', 'iid', 'shifted', 'trend', 'disagree']
 A_MODERATE = [-3.0, -1.0, -0.5, 0.25, 2.0, 7.0, 0.125, -16.0]
 B_UNITS = [0.0, 1.0, -2.5, 100.0, -37.25]
+MAX_REPEAT = 2
 REL_DIAG = 1e-6                               # RELATIVE tolerance of the python-side scale sweep (R-hat, ESS are dimensionless)
 
 
@@ -555,7 +556,17 @@ class C16(PropCheck):
                 fails.append(('diag_scale_affine_ess', 's = %g (W = %.3g): ESS(s(x+c)) = %r, ESS(x) = %r' % (sg, w, es, out['ess'])))
             if ess_ok and not rel(es, es_x):
                 fails.append(('diag_scale_formula_ess', 's = %g (W = %.3g): ESS = %r, formula %r' % (sg, w, es, es_x)))
-        return fails[:6]
+        # one broken scale fails on hundreds of cases: report every clause at most MAX_REPEAT times per run (the driver writes
+        # one replay file per distinct message), count the rest in the histogram
+        kept = []
+        seen = self.__dict__.setdefault('_sweep_reported', {})
+        for clause, msg in fails:
+            seen[clause] = seen.get(clause, 0) + 1
+            if seen[clause] <= MAX_REPEAT:
+                kept.append((clause, msg))
+            else:
+                self.bump('diag:repeat_failures_not_listed:' + clause)
+        return kept
 
     def nontrivial(self, case, out):
         if case.get('malformed'):
